@@ -29,6 +29,9 @@ type AnnotationLinkValidator struct {
 	groupedAttributes classifiedAttributes
 	funcParamNames    mapset.Set[string]
 	urlParams         []string // Note we're using a slice here since we have to validate there aren't any duplicates
+
+	// URL parameters declared by the parent controller's route. These are part of the receiver's full URL template
+	controllerUrlParams []string
 }
 
 // NewAnnotationLinkValidator constructs the validator.
@@ -50,6 +53,21 @@ func NewAnnotationLinkValidator(recv *metadata.ReceiverMeta) (AnnotationLinkVali
 	}, nil
 }
 
+// NewAnnotationLinkValidatorForController constructs a validator that also accounts for
+// URL parameters declared by the parent controller's route (e.g. '/tenants/{tenant}')
+func NewAnnotationLinkValidatorForController(
+	recv *metadata.ReceiverMeta,
+	controllerRoute string,
+) (AnnotationLinkValidator, error) {
+	validator, err := NewAnnotationLinkValidator(recv)
+	if err != nil {
+		return validator, err
+	}
+
+	validator.controllerUrlParams = extractUrlParams(controllerRoute)
+	return validator, nil
+}
+
 // Validate runs the nine checks and returns resolved diagnostics.
 func (v AnnotationLinkValidator) Validate() []diagnostics.ResolvedDiagnostic {
 	diags := []diagnostics.ResolvedDiagnostic{}
@@ -58,8 +76,12 @@ func (v AnnotationLinkValidator) Validate() []diagnostics.ResolvedDiagnostic {
 	// 1. Check @Route parameters for duplications and matching matching @Path attributes
 	diags = append(diags, v.validateRoute()...)
 
+	routeHasUnboundParams := slices.ContainsFunc(diags, func(d diagnostics.ResolvedDiagnostic) bool {
+		return d.Code == string(diagnostics.DiagLinkerRouteMissingPath)
+	})
+
 	// 2. Validate @Path attributes against function parameters
-	diags = append(diags, v.validatePathAnnotations(seenFuncParams)...)
+	diags = append(diags, v.validatePathAnnotations(seenFuncParams, routeHasUnboundParams)...)
 
 	// 3. Validate other annotations against function parameters
 	diags = append(diags, v.validateNonPathAnnotations(seenFuncParams)...)
@@ -133,7 +155,31 @@ func (v AnnotationLinkValidator) validateRoute() []diagnostics.ResolvedDiagnosti
 		}
 	}
 
+	// URL parameters declared on the controller's route are part of every receiver's URL and must be bound too
+	for _, urlParam := range v.controllerUrlParams {
+		if witnessedUrlParams.Contains(urlParam) || referencedParams.Contains(urlParam) {
+			continue
+		}
+		witnessedUrlParams.Add(urlParam)
+
+		diags = append(diags, diagnostics.NewDiagnostic(
+			v.receiver.Annotations.FileName(),
+			fmt.Sprintf(
+				"URL parameter '%s' of the controller's route does not have a corresponding @Path annotation",
+				urlParam,
+			),
+			diagnostics.DiagLinkerRouteMissingPath,
+			diagnostics.DiagnosticError,
+			v.groupedAttributes.route.GetValueRange(),
+		))
+	}
+
 	return diags
+}
+
+// isKnownUrlParam determines whether the given name appears in the receiver's or its parent controller's route
+func (v AnnotationLinkValidator) isKnownUrlParam(name string) bool {
+	return slices.Contains(v.urlParams, name) || slices.Contains(v.controllerUrlParams, name)
 }
 
 // validatePathAnnotations validates @Path annotations against the annotated function's parameters
@@ -141,6 +187,7 @@ func (v AnnotationLinkValidator) validateRoute() []diagnostics.ResolvedDiagnosti
 // is an ***In/Out*** parameter (modified by this method)
 func (v AnnotationLinkValidator) validatePathAnnotations(
 	seenFuncParams map[string]annotations.Attribute, // Modified by function
+	routeHasUnboundParams bool,
 ) []diagnostics.ResolvedDiagnostic {
 	diags := []diagnostics.ResolvedDiagnostic{}
 
@@ -209,10 +256,10 @@ func (v AnnotationLinkValidator) validatePathAnnotations(
 				}
 
 				// Check if the alias exists as a URL parameter
-				if !slices.Contains(v.urlParams, alias) {
+				if !v.isKnownUrlParam(alias) {
 					suggestion := getContextualAppendedSuggestion(
 						alias,
-						v.urlParams,
+						slices.Concat(v.urlParams, v.controllerUrlParams),
 						common.MapKeys(seenFuncParams),
 					)
 					diags = append(diags, diagnostics.NewErrorDiagnostic(
@@ -222,6 +269,18 @@ func (v AnnotationLinkValidator) validatePathAnnotations(
 						pathAttr.Comment.Range(),
 					))
 				}
+			} else if !v.isKnownUrlParam(expectedFuncParamName) &&
+				v.funcParamNames.Contains(expectedFuncParamName) &&
+				!routeHasUnboundParams {
+				// No alias - the @Path value itself must name a URL parameter.
+				// Skipped when the route already reported unbound URL parameters or the value is not
+				// a function parameter - those diagnostics describe the same mismatch
+				diags = append(diags, diagnostics.NewErrorDiagnostic(
+					v.receiver.Annotations.FileName(),
+					fmt.Sprintf("@Path '%s' does not match any URL parameter of the route", expectedFuncParamName),
+					diagnostics.DiagLinkerPathInvalidRef,
+					pathAttr.GetValueRange(),
+				))
 			}
 		}
 	}
